@@ -162,9 +162,11 @@ def Msg.content (m : Msg) : Except Err Bytes :=
     | none => .ok b
 
 /-- `GeckoPacketProtocolHandler.send_bytes` for a handler whose parms carry `(…, …, p2, p3)` -/
+def parm (i : Nat) (p2 p3 : Bytes) : Bytes := if i = 2 then p2 else p3   -- the translator admits only indices 2 and 3
+
 def frame (p2 p3 content : Bytes) : Bytes :=
-  PACKET_OPEN ++ SRCCN_OPEN ++ (if sendSrcIndex = 3 then p3 else p2) ++ SRCCN_CLOSE ++ DESCN_OPEN ++
-    (if sendDstIndex = 2 then p2 else p3) ++ DESCN_CLOSE ++ DATAS_OPEN ++ content ++ DATAS_CLOSE ++ PACKET_CLOSE
+  PACKET_OPEN ++ SRCCN_OPEN ++ parm sendSrcIndex p2 p3 ++ SRCCN_CLOSE ++ DESCN_OPEN ++
+    parm sendDstIndex p2 p3 ++ DESCN_CLOSE ++ DATAS_OPEN ++ content ++ DATAS_CLOSE ++ PACKET_CLOSE
 
 /-- `GeckoHelloProtocolHandler.send_bytes` -/
 def helloFrame (content : Bytes) : Bytes := HELLO_OPEN ++ content ++ HELLO_CLOSE
@@ -370,7 +372,7 @@ def statpRecords (f : Fmt) (rem : Bytes) : Nat → Nat → Except Err (List (Int
       | .ok r => .ok ((pos, slice (3 + i * 4) (5 + i * 4) rem) :: r)
 
 /-- statusblock.py `GeckoPartialStatusBlockProtocolHandler.handle` / the async twin's `async_handle`
-(`fq fa fc fp` are the formats of the four struct calls of the respective method) -/
+(`fq fc fp` are the formats of the three struct.unpack calls of the respective method) -/
 def decodePartialWith (fq fc fp : Fmt) (bs : Bytes) : Except Err Decoded :=
   let rem := bs.drop 5
   if startsWith bs STATQ_VERB then
